@@ -6,6 +6,7 @@
 //	spec/MConn/Stream.tla        -> stream.go  replay of Write/Read chunkings on real SecretConnections
 //	spec/MConn/MConn.tla         -> mux.go     replay of packet interleavings on a real receiving MConnection
 //	spec/MConn/Trace_MConn.tla   -> mtrace.go  validation of traces of two real MConnections
+//	spec/MConn/Writers.tla       -> writers.go replay of stalled writes / pings / sends on two real MConnections
 //	spec/Handshake/Handshake.tla -> hs.go      replay of attacker behaviours on real MakeSecretConnection
 package c18
 
@@ -42,6 +43,7 @@ type replayRec struct {
 	PModel   int         `json:"p_model,omitempty"`
 	Hon      []string    `json:"honest,omitempty"`
 	Old      [][2]string `json:"old_sessions,omitempty"`
+	Sched    []wrAct     `json:"sched,omitempty"`
 	Mismatch string      `json:"mismatch"`
 	Step     int         `json:"step"`
 }
@@ -172,12 +174,13 @@ func withSizes(cfg string, w, r []int) string {
 func run(c *core.Ctx) {
 	o := c.Out()
 	o.Level = "model_checking"
-	o.Rule = "behaviour = root-to-leaf path through a TLC-exported graph (Stream: Write/Read chunkings; MConn: channel/packet interleavings; Handshake: attacker moves) replayed on the real connection code under one concrete instantiation, or one direction of one recorded connection validated by Trace_MConn; non-trivial = at least one byte / packet / message crosses the real code; distinct = distinct (model, edge sequence, instantiation)"
+	o.Rule = "behaviour = root-to-leaf path through a TLC-exported graph (Stream: Write/Read chunkings; MConn: channel/packet interleavings; Writers: sends, peer pings and stalled / released writes of one connection; Handshake: attacker moves) replayed on the real connection code under one concrete instantiation, or one direction of one recorded connection validated by Trace_MConn; non-trivial = at least one byte / packet / message crosses the real code; distinct = distinct (model, edge sequence, instantiation)"
 	o.Assumptions = []string{
 		"frame mode = the compiled-in default (snappy-compressed frames); sealed and raw modes are not selectable through the exported interface",
 		"symbolic cryptography in the Handshake model: a signature verifies only under the signing key and the signed challenge",
 		"the attacker cannot sign with an honest key; it sees and controls every message",
-		"flush throttling, ping/pong timers and rate limiting are not modelled (rate limiting switched off, nothing asserted on timing)",
+		"flush throttling, the ping / pong timers and rate limiting are not modelled (rate limiting switched off, nothing asserted on timing); the peer's pings, the pongs answering them and writes stalled by the transport are (Writers.tla)",
+		"Writers.tla: the steps inside bufio.Writer.Write / Flush are atomic up to the call of conn.Write and after its return; a stalled write is cut at 0, 1, half or all but one of its bytes",
 		"message sizes up to 7 packets, write/read sizes up to 100001 bytes plus seeded sizes",
 	}
 	o.Trusted = []string{"TLC", "ed25519 / secp256k1 / curve25519 / sha256 / snappy libraries", "libs/ser encoding (property C11)", "the in-memory, net.Pipe and TCP loopback transports"}
@@ -207,9 +210,21 @@ func run(c *core.Ctx) {
 		return
 	}
 
-	var stRes, mxRes, hsRes *tlc.Result
+	wrCfg := "Writers.cfg"
+	if c.Thorough() {
+		wrCfg = "WritersBig.cfg"
+	}
+	var stRes, mxRes, hsRes, wrRes *tlc.Result
 	var twg sync.WaitGroup
-	twg.Add(3)
+	twg.Add(5)
+	go func() {
+		defer twg.Done()
+		wrRes = c.TLC(tlc.Options{SpecDir: c.SpecDir("MConn"), Module: "Writers", Config: wrCfg, Workers: 1, Timeout: c.MinutesT(3, 15)})
+	}()
+	go func() {
+		defer twg.Done()
+		runWritersWhatIf(c, wrCfg)
+	}()
 	go func() {
 		defer twg.Done()
 		stRes = c.TLC(tlc.Options{SpecDir: c.SpecDir("MConn"), Module: "Stream", Config: "StreamSeeded.cfg", Workers: 1, Timeout: c.MinutesT(3, 15),
@@ -257,6 +272,8 @@ func run(c *core.Ctx) {
 	mxRes = nil
 	hsG := load("handshake", hsRes)
 	hsRes = nil
+	wrG := load("writers", wrRes)
+	wrRes = nil
 	c.SetExtra("stream_seeded_sizes", map[string][]int{"write": wExtra, "read": rExtra})
 
 	// the recorded traces are validated by TLC while the replays run
@@ -288,6 +305,10 @@ func run(c *core.Ctx) {
 		}
 	}
 	lap("mconn_replay")
+	if wrG != nil {
+		replayWriters(c, k, wrG)
+	}
+	lap("writers_replay")
 	if hsG != nil {
 		hon, old := hsConsts(filepath.Join(c.SpecDir("Handshake"), hsCfg))
 		replayHandshake(c, k, hsG, hon, old)
@@ -853,6 +874,14 @@ func runReplayFile(c *core.Ctx, k *checker) {
 		k.count("mconn", "replay", steps)
 		if mm != nil {
 			k.report("mconn", mm, r)
+		}
+	case "writers":
+		var v wrVariant
+		json.Unmarshal(vb, &v)
+		steps, _, mm := wrReplay(r.Sched, v, false)
+		k.count("writers", "replay", steps)
+		if mm != nil {
+			k.report("writers", mm, r)
 		}
 	case "handshake":
 		var v hsVariant
